@@ -449,7 +449,7 @@ def r6(ctx):
                 if uses and not defined:
                     nuse += 1
                     # guarded by a proxy that was reset with the window and has changed since?
-                    guarded = False
+                    guarded = not feasible(p, ev, {"self.actualWindowSize": None})
                     for k, v in proxies.items():
                         if not feasible(p, ev, {"self.%s" % k: v}):
                             guarded = True
